@@ -254,6 +254,9 @@ func (s *sequenceAllocator) nextSequenceGreaterThan(ctx context.Context, existin
 	numReleasedBatch, err = s._releaseCurrentBatch(ctx)
 	if err != nil {
 		base.InfofCtx(ctx, base.KeyCache, "Unable to release current batch during nextSequenceGreaterThan for existing sequence %d. Will be handled by skipped sequence handling. %v", existingSequence, err)
+		// Abandon the batch (as releaseUnusedSequences does on error). Its sequences are all lower than targetSequence,
+		// so they must not be assigned by _nextSequence below, and the release may have been applied despite the error.
+		s.last = s.max
 	}
 	releasedSequenceCount += numReleasedBatch
 
